@@ -71,6 +71,82 @@ struct Result { std::vector<Out> outs; int status = 0; bool ok = false; };   // 
 inline void wr(int fd, const void* p, size_t n) { const char* c = (const char*)p; while (n) { ssize_t k = write(fd, c, n); if (k <= 0) _exit(3); c += k; n -= k; } }
 inline bool rd(int fd, void* p, size_t n) { char* c = (char*)p; while (n) { ssize_t k = read(fd, c, n); if (k <= 0) return false; c += k; n -= k; } return true; }
 
+// record on the pipe: depth (1..3), call index, status (0 = returned, else wait status class), outputs
+struct Rec { int depth = 0, idx = -1, status = 0; Out out; };
+inline void emit(int fd, int depth, int idx, int status, const Out* o) {
+  std::string b; int32_t h[3] = {depth, idx, status}; b.append((const char*)h, 12);
+  uint32_t nd = o ? o->d.size() : 0, ns = o ? o->s.size() : 0;
+  b.append((const char*)&nd, 4); if (nd) b.append((const char*)o->d.data(), 8 * (size_t)nd);
+  b.append((const char*)&ns, 4); if (ns) b.append(o->s.data(), ns);
+  wr(fd, b.data(), b.size());
+}
+inline bool recv(int fd, Rec& r) {
+  int32_t h[3]; if (!rd(fd, h, 12)) return false;
+  r.depth = h[0]; r.idx = h[1]; r.status = h[2]; uint32_t nd, ns;
+  if (!rd(fd, &nd, 4)) return false; r.out.d.resize(nd); if (nd && !rd(fd, r.out.d.data(), 8 * (size_t)nd)) return false;
+  if (!rd(fd, &ns, 4)) return false; r.out.s.resize(ns); if (ns && !rd(fd, &r.out.s[0], ns)) return false;
+  return true;
+}
+inline int wstatus(int st) { return WIFSIGNALED(st) ? WTERMSIG(st) : (WIFEXITED(st) && WEXITSTATUS(st) == 0) ? 0 : -1; }
+inline void do_call(const Set& S, int i, Out& o) {
+  alarm(120);
+  try { S.calls[i].fn(o); }
+  catch (const std::exception& e) { o << std::string("EXC:") + e.what(); }
+  catch (...) { o << std::string("EXC:unknown"); }
+  alarm(0);
+}
+
+// The process tree of all sequences that start with call `first`, to depth `depth`: the child runs setup() and the
+// first call; for every second call it forks (the fork inherits exactly the state left by the first call), the
+// grandchild runs the second call and forks once more for every third call.  Every process is waited for before the
+// next is forked, so at any time one path of the tree is alive and the records on the pipe are in depth-first order.
+// sink(rec) is called in the parent for every record.  first < 0: no first call (used for the solo baselines, depth 1
+// over all calls: each call alone after setup()).
+template <class F> inline void run_tree(const Set& S, int first, int depth, F sink) {
+  const int N = (int)S.calls.size();
+  int fds[2];
+  if (pipe(fds) != 0) { perror("pipe"); exit(2); }
+  pid_t pid = fork();
+  if (pid < 0) { perror("fork"); exit(2); }
+  if (pid == 0) {
+    close(fds[0]);
+    const int fd = fds[1];
+    alarm(120);
+    if (S.setup) S.setup();
+    alarm(0);
+    if (first < 0) {           // solo baselines: every call alone in its own fork of the post-setup state
+      for (int i = 0; i < N; ++i) {
+        pid_t p1 = fork(); if (p1 < 0) _exit(4);
+        if (p1 == 0) { Out o; do_call(S, i, o); emit(fd, 1, i, 0, &o); _exit(0); }
+        int st = 0; waitpid(p1, &st, 0); if (wstatus(st) != 0) emit(fd, 1, i, wstatus(st), nullptr);
+      }
+      _exit(0);
+    }
+    { Out o; do_call(S, first, o); emit(fd, 1, first, 0, &o); }
+    if (depth >= 2) for (int j = 0; j < N; ++j) {
+      pid_t p2 = fork(); if (p2 < 0) _exit(4);
+      if (p2 == 0) {
+        { Out o; do_call(S, j, o); emit(fd, 2, j, 0, &o); }
+        if (depth >= 3) for (int k = 0; k < N; ++k) {
+          pid_t p3 = fork(); if (p3 < 0) _exit(4);
+          if (p3 == 0) { Out o; do_call(S, k, o); emit(fd, 3, k, 0, &o); _exit(0); }
+          int st = 0; waitpid(p3, &st, 0); if (wstatus(st) != 0) emit(fd, 3, k, wstatus(st), nullptr);
+        }
+        _exit(0);
+      }
+      int st = 0; waitpid(p2, &st, 0); if (wstatus(st) != 0) emit(fd, 2, j, wstatus(st), nullptr);
+    }
+    _exit(0);
+  }
+  close(fds[1]);
+  Rec r;
+  while (recv(fds[0], r)) sink(r);
+  close(fds[0]);
+  int st = 0; waitpid(pid, &st, 0);
+  if (wstatus(st) != 0) { Rec d; d.depth = 1; d.idx = first; d.status = wstatus(st); sink(d); }
+}
+
+// one sequence in one fresh process (used by tools and tests)
 inline Result run_seq(const Set& S, const std::vector<int>& seq) {
   Result R;
   int fds[2];
@@ -79,47 +155,22 @@ inline Result run_seq(const Set& S, const std::vector<int>& seq) {
   if (pid < 0) { perror("fork"); exit(2); }
   if (pid == 0) {
     close(fds[0]);
-    alarm(60);
     if (S.setup) S.setup();
-    for (int i : seq) {
-      Out o;
-      try { S.calls[i].fn(o); }
-      catch (const std::exception& e) { o << std::string("EXC:") + e.what(); }
-      catch (...) { o << std::string("EXC:unknown"); }
-      uint32_t nd = o.d.size(), ns = o.s.size();
-      wr(fds[1], &nd, 4); if (nd) wr(fds[1], o.d.data(), 8 * (size_t)nd);
-      wr(fds[1], &ns, 4); if (ns) wr(fds[1], o.s.data(), ns);
-    }
-    close(fds[1]);
+    for (int i : seq) { Out o; do_call(S, i, o); emit(fds[1], 1, i, 0, &o); }
     _exit(0);
   }
   close(fds[1]);
-  for (size_t k = 0; k < seq.size(); ++k) {
-    Out o; uint32_t nd, ns;
-    if (!rd(fds[0], &nd, 4)) break;
-    o.d.resize(nd); if (nd && !rd(fds[0], o.d.data(), 8 * (size_t)nd)) break;
-    if (!rd(fds[0], &ns, 4)) break;
-    o.s.resize(ns); if (ns && !rd(fds[0], &o.s[0], ns)) break;
-    R.outs.push_back(std::move(o));
-  }
+  Rec r; while (recv(fds[0], r)) R.outs.push_back(r.out);
   close(fds[0]);
-  int st = 0; waitpid(pid, &st, 0);
-  if (WIFSIGNALED(st)) R.status = WTERMSIG(st);
-  else if (!WIFEXITED(st) || WEXITSTATUS(st) != 0) R.status = -1;
+  int st = 0; waitpid(pid, &st, 0); R.status = wstatus(st);
   R.ok = R.status == 0 && R.outs.size() == seq.size();
   return R;
 }
 
-inline uint64_t hash_outs(const std::vector<Out>& outs) {
-  uint64_t h = 1469598103934665603ULL;
-  for (auto& o : outs) { for (double x : o.d) h = mc::mix64(h ^ mc::bits(x)); for (unsigned char c : o.s) h = mc::mix64(h ^ c); h = mc::mix64(h + 77); }
-  return h;
-}
-
-inline std::string seqname(const Set& S, const std::vector<int>& seq) {
-  std::string r;
-  for (size_t k = 0; k < seq.size(); ++k) { if (k) r += " ; "; r += S.calls[seq[k]].name; }
-  return r;
+inline uint64_t hash_out(uint64_t h, const Out& o) {
+  for (double x : o.d) h = mc::mix64(h ^ mc::bits(x));
+  for (unsigned char c : o.s) h = mc::mix64(h ^ c);
+  return mc::mix64(h + 77);
 }
 
 // explore one set: unit = first call of the sequence
@@ -128,77 +179,72 @@ inline void explore(mc::Ctx& ctx, const Set& S, int depth) {
   ctx.sub("interfere-" + S.name);
   ctx.bound("interfere-" + S.name + ".alphabet", std::to_string(N) + " calls: " + [&] { std::string r; for (int i = 0; i < N && i < 400; ++i) { if (i) r += " | "; r += S.calls[i].name; } return r; }());
   ctx.bound("interfere-" + S.name + ".depth", "every sequence of " + std::to_string(depth) + " calls over the alphabet (" + std::to_string(depth == 2 ? (long long)N * N : (long long)N * N * N) +
-            " sequences, repetitions included), each in a fresh process; outputs of every call compared bitwise with the same call alone in a fresh process");
-  std::vector<Out> solo; std::vector<int> solo_status; bool have = false;
+            " sequences, repetitions included), each path in its own process (fork tree: a fork inherits exactly the state left by the calls before it); outputs of every call compared bitwise with the same call alone after setup()");
+  std::vector<Out> solo(N); std::vector<int> solo_status(N, -1); bool have = false;
   auto ensure_solo = [&] {
     if (have) return; have = true;
-    solo.resize(N); solo_status.assign(N, 0);
-    for (int i = 0; i < N; ++i) {
-      Result r = run_seq(S, {i});
-      solo_status[i] = r.ok ? 0 : (r.status ? r.status : -1);
-      if (r.ok) solo[i] = r.outs[0];
-    }
+    run_tree(S, -1, 1, [&](const Rec& r) { if (r.idx >= 0 && r.idx < N) { solo_status[r.idx] = r.status; if (r.status == 0) solo[r.idx] = r.out; } });
   };
-  auto judge = [&](const std::vector<int>& seq, const Result& r) {
-    const std::string sn = seqname(S, seq);
-    for (size_t k = 0; k < seq.size(); ++k) {
-      const int c = seq[k];
-      if (k >= r.outs.size()) {
-        if (solo_status[c] == 0) {
-          // only a failure if every call of the sequence is fine alone (else the crash is that call's own, reported below)
-          bool all_ok = true; for (int q : seq) all_ok = all_ok && solo_status[q] == 0;
-          if (all_ok) ctx.fail(S.name + "|" + sn + "|crash", "sequence [" + sn + "] in a fresh process died (status " + std::to_string(r.status) + ") at call #" + std::to_string(k + 1) +
-                               " although every call returns when executed alone", {{"kind", "history-dependent-crash"}, {"set", S.name}, {"call", S.calls[c].name}});
-        }
-        break;
-      }
-      if (solo_status[c] != 0) continue;
-      if (!r.outs[k].same(solo[c])) {
-        std::string before; for (size_t q = 0; q < k; ++q) { if (q) before += " ; "; before += S.calls[seq[q]].name; }
-        ctx.fail(S.name + "|" + sn + "|" + std::to_string(k),
-                 "in a fresh process, after [" + before + "] the call " + S.calls[c].name + " returns " + r.outs[k].show() + " but alone it returns " + solo[c].show() + " (" + r.outs[k].diff(solo[c]) + ")",
-                 {{"kind", k == 0 ? "first-call-not-reproducible" : "history-dependent-output"}, {"set", S.name}, {"call", S.calls[c].name}, {"after", before}});
-        break;     // later calls of a polluted history are not judged
-      }
-    }
-  };
-  uint64_t nseq = 0, nforks = 0; std::set<uint64_t> outcomes;
+  uint64_t nseq = 0, ncalls = 0; std::set<uint64_t> outcomes;
   for (int i = 0; i < N; ++i) {
     if (!ctx.take()) continue;
     ensure_solo();
+    const std::string ni = S.calls[i].name;
     if (solo_status[i] != 0)
-      ctx.fail(S.name + "|" + S.calls[i].name + "|solo", "call " + S.calls[i].name + " alone in a fresh process died (status " + std::to_string(solo_status[i]) + ")",
-               {{"kind", "solo-crash"}, {"set", S.name}, {"call", S.calls[i].name}});
-    for (int j = 0; j < N; ++j) {
-      if (depth == 2) {
-        mc::Ctx::Case cs(ctx);
-        Result r = run_seq(S, {i, j}); ++nseq; ++nforks;
-        uint64_t h = hash_outs(r.outs);
-        ctx.sig(h); outcomes.insert(h);
-        judge({i, j}, r);
-      } else {
-        for (int k = 0; k < N; ++k) {
-          mc::Ctx::Case cs(ctx);
-          Result r = run_seq(S, {i, j, k}); ++nseq; ++nforks;
-          uint64_t h = hash_outs(r.outs);
-          ctx.sig(h); outcomes.insert(h);
-          judge({i, j, k}, r);
+      ctx.fail(S.name + "|" + ni + "|solo", "call " + ni + " alone in a fresh process died (status " + std::to_string(solo_status[i]) + ")", {{"kind", "solo-crash"}, {"set", S.name}, {"call", ni}});
+    int cur_j = -1; bool bad1 = false, bad2 = false; uint64_t h1 = 0, h2 = 0;
+    run_tree(S, i, depth, [&](const Rec& r) {
+      mc::Ctx::Case cs(ctx);
+      ++ncalls;
+      auto judge = [&](const std::string& before, int c, int pos) -> bool {    // true: this call's output is as when alone
+        const std::string nc = S.calls[c].name, sn = before + " ; " + nc;
+        if (r.status != 0) {
+          if (solo_status[c] == 0) ctx.fail(S.name + "|" + sn + "|crash", "after [" + before + "] the call " + nc + " died (status " + std::to_string(r.status) + ") although it returns when executed alone",
+                                            {{"kind", "history-dependent-crash"}, {"set", S.name}, {"call", nc}, {"after", before}});
+          return false;
         }
+        if (solo_status[c] != 0) return false;
+        if (!r.out.same(solo[c])) {
+          ctx.fail(S.name + "|" + sn + "|" + std::to_string(pos), "in a fresh process, after [" + before + "] the call " + nc + " returns " + r.out.show() + " but alone it returns " + solo[c].show() + " (" + r.out.diff(solo[c]) + ")",
+                   {{"kind", "history-dependent-output"}, {"set", S.name}, {"call", nc}, {"after", before}});
+          return false;
+        }
+        return true;
+      };
+      if (r.depth == 1) {
+        h1 = hash_out(1469598103934665603ULL, r.out);
+        if (r.status != 0) { bad1 = true; return; }
+        if (solo_status[i] == 0 && !r.out.same(solo[i])) {
+          bad1 = true;
+          ctx.fail(S.name + "|" + ni + "|first", "call " + ni + " as the first call of a fresh process returns " + r.out.show() + " but in another fresh process " + solo[i].show() + " (" + r.out.diff(solo[i]) + ")",
+                   {{"kind", "first-call-not-reproducible"}, {"set", S.name}, {"call", ni}});
+        }
+        if (depth == 1) { ++nseq; outcomes.insert(h1); }
+      } else if (r.depth == 2) {
+        cur_j = r.idx; h2 = hash_out(h1, r.out);
+        ctx.sig(h2);
+        if (depth == 2) { ++nseq; outcomes.insert(h2); }
+        bad2 = bad1 || solo_status[i] != 0 ? true : !judge(ni, r.idx, 1);     // a polluted prefix is reported once, not for every extension
+        if (bad1 || solo_status[i] != 0) bad2 = true;
+      } else if (r.depth == 3) {
+        uint64_t h3 = hash_out(h2, r.out); ctx.sig(h3); ++nseq; outcomes.insert(h3);
+        if (!bad2 && cur_j >= 0) judge(ni + " ; " + S.calls[cur_j].name, r.idx, 2);
       }
-    }
+    });
   }
   ctx.count("states", outcomes.size());      // distinct observable outcomes (output vectors of a whole sequence)
-  ctx.count("transitions", nseq * depth);    // calls executed inside sequences
-  ctx.count("traces", nseq);                 // sequences executed on the real code, each in its own process
+  ctx.count("transitions", ncalls);          // calls executed inside sequences (each in the state its prefix left)
+  ctx.count("traces", nseq);                 // complete sequences executed on the real code
   ctx.count("sequences", nseq);
-  ctx.count("forks", nforks + (have ? N : 0));
 }
 
 inline int run(int argc, char** argv, std::vector<Set> (*tables)(bool thorough)) {
   mc::Ctx ctx(argc, argv);
   const bool T = ctx.thorough();
-  std::vector<Set> sets = tables(T);
-  for (const Set& S : sets) explore(ctx, S, T ? 3 : 2);
+  // quick: all ordered pairs over the base alphabet.  thorough: all ordered triples over the base alphabet (their
+  // prefixes are the quick pairs) and all ordered pairs over the wider alphabet tables(true).
+  { std::vector<Set> sets = tables(false); for (const Set& S : sets) explore(ctx, S, T ? 3 : 2); }
+  if (T) { std::vector<Set> sets = tables(true); for (Set& S : sets) { S.name += "-wide"; explore(ctx, S, 2); } }
   ctx.note("engine E2x (mc/interfere.hpp): every call sequence runs in its own forked process; the parent never calls the library, so a child starts from the pristine process state");
   return ctx.finish();
 }
